@@ -147,7 +147,7 @@ def arr(v, dtype):
 
 def gen_case(rng):
     """returns (desc, build, call_params(n) or None, lo, hi, classes) where build() -> model"""
-    fam = rng.randrange(9)
+    fam = rng.randrange(10)
     if fam in (0, 1):
         v, cname = gen_table(rng)
         dt = pick(rng, [np.float64, np.float32])
@@ -229,6 +229,22 @@ def gen_case(rng):
         ps = [p] + [rng.random() for _ in range(k - 1)]
         rng.shuffle(ps)
         return "Bernoulli(perfect=%s) with ps %r" % (perfect, ps), (lambda: M.Bernoulli(perfect=perfect)), (lambda m: (arr(ps, np.float64),), k), 0, 1, cname
+    if fam == 9:
+        # ScipyModel over well-behaved scipy.stats distributions (frozen, or as a family with
+        # per-symbol parameters) and hostile or valid ranges; broken user-supplied distributions
+        # are outside the quantifier
+        import scipy.stats
+        dist = pick(rng, [scipy.stats.norm, scipy.stats.cauchy, scipy.stats.laplace, scipy.stats.logistic])
+        lo, hi = pick(rng, [(-10, 10), (0, 1), (0, 0), (5, 4), (-100, 100), (0, 2 ** 24), (0, 2 ** 24 - 1), (-2 ** 31, 2 ** 31 - 1), (-3, 60000)])
+        cname = "valid" if lo < hi and hi - lo + 1 <= 2 ** 24 else "invalid-range"
+        loc, scale = rng.uniform(-5, 5), rng.uniform(0.2, 5)
+        if rng.random() < 0.5:
+            return ("ScipyModel(%s(loc=%.3f, scale=%.3f), %d, %d)" % (dist.name, loc, scale, lo, hi), (lambda: M.ScipyModel(dist(loc=loc, scale=scale), lo, hi)), None, lo, hi, cname)
+        k = rng.randrange(1, 4)
+        locs = [loc] + [rng.uniform(-5, 5) for _ in range(k - 1)]
+        scales = [scale] + [rng.uniform(0.2, 5) for _ in range(k - 1)]
+        return ("ScipyModel(%s, %d, %d) with locs %r scales %r" % (dist.name, lo, hi, locs, scales), (lambda: M.ScipyModel(dist, lo, hi)),
+                (lambda n: (arr(locs, np.float64), arr(scales, np.float64)), k), lo, hi, cname)
     # CustomModel with a well-behaved logistic CDF over a hostile or valid range
     lo, hi = pick(rng, [(-10, 10), (0, 1), (0, 0), (5, 4), (-100, 100), (0, 2 ** 24), (0, 2 ** 24 - 1), (-2 ** 31, 2 ** 31 - 1)])
     mu, s = rng.uniform(-5, 5), rng.uniform(0.2, 5)
